@@ -250,17 +250,22 @@ func extractC19(f *facts) {
 
 	// --- rateFlag.Set: the literals ---
 	var words, units []string
+	var wordBodies [][]string
 	defPer := ""
 	sep := ""
 	if fd := funcDecl(flags, "rateFlag", "Set"); fd != nil {
 		ast.Inspect(fd, func(n ast.Node) bool {
 			switch x := n.(type) {
 			case *ast.IfStmt:
+				// `if v == "<word>" { <statements> }`: the special words and what their branch does
 				if be, ok := x.Cond.(*ast.BinaryExpr); ok && be.Op == token.EQL {
-					if s, ok := c19StrLit(be.Y); ok && len(x.Body.List) == 1 {
-						if rs, ok := x.Body.List[0].(*ast.ReturnStmt); ok && len(rs.Results) == 1 && c19Src(f, rs.Results[0]) == "nil" {
-							words = append(words, s) // `if v == "<word>" { return nil }`
+					if s, ok := c19StrLit(be.Y); ok {
+						words = append(words, s)
+						var body []string
+						for _, st := range x.Body.List {
+							body = append(body, c19Src(f, st))
 						}
+						wordBodies = append(wordBodies, body)
 					}
 				}
 			case *ast.CaseClause:
@@ -292,7 +297,13 @@ func extractC19(f *facts) {
 			return true
 		})
 	}
-	f.def("c19RateNilWords", "List (List Nat)", leanBytesList(words))
+	f.def("c19RateSpecialWords", "List (List Nat)", leanBytesList(words))
+	// statements of each special word's branch, in order (e.g. ["f.Freq = 0", "return nil"])
+	wb := make([]string, len(wordBodies))
+	for i, b := range wordBodies {
+		wb[i] = leanBytesList(b)
+	}
+	f.def("c19RateSpecialWordBranches", "List (List (List Nat))", "["+strings.Join(wb, ", ")+"]")
 	f.def("c19RateBareUnits", "List (List Nat)", leanBytesList(units))
 	f.def("c19RateDefaultPer", "List Nat", leanBytes(defPer))
 	f.def("c19RateSplit", "List Nat", leanBytes(sep))
